@@ -53,7 +53,27 @@ def ret_type(sig):
 
 
 # functions of `AggValidExt` (tea-agg/src/lib.rs), translated after the ones above
-EXT_FNS = ["vkurt"]
+EXT_FNS = ["vkurt", "vpercentile_of"]
+# enum-typed parameters: Rust type -> Lean type (GenPrelude.lean)
+ENUMS = {"PercentileOfMethod": "PctMethod"}
+
+
+def rewrite_guard_let(blk):
+    """`let x = if x.is_none() { return E; } else { x.unwrap() }; rest…`
+       ->  `if x.not_none() { let x = x.unwrap(); rest… } else { E }`  (as the block's value)"""
+    stmts, tail = list(blk[1]), blk[2]
+    for i, st in enumerate(stmts):
+        if (st[0] == "let" and st[1][0] == "pvar" and st[3] is not None and st[3][0] == "if" and st[3][3] is not None):
+            x = st[1][1]
+            c, th, el = st[3][1], st[3][2], st[3][3]
+            if (c == ("mcall", ("path", x), "is_none", []) and th[0] == "block" and len(th[1]) == 1 and th[2] is None
+                    and th[1][0][0] == "expr" and th[1][0][1][0] == "return"
+                    and el == ("block", [], ("mcall", ("path", x), "unwrap", []))):
+                ret = th[1][0][1][1]
+                inner = rewrite_guard_let(("block", [("let", st[1], False, ("mcall", ("path", x), "unwrap", []), "")] + stmts[i + 1:], tail))
+                new_if = ("if", ("mcall", ("path", x), "not_none", []), inner, ("block", [], ret))
+                return ("block", stmts[:i], new_if)
+    return blk
 # functions of the plain trait `AggBasic` (agg.rs; null-free items): emitted in the namespace `plain`
 PLAIN_FNS = ["count_value", "first", "last", "n_sum", "sum", "mean", "max", "min", "argmax", "argmin"]
 
@@ -101,7 +121,8 @@ def translate(name, sig, body_src, siblings, plain=False):
     eparams = re.findall(r"\b(\w+)\s*:\s*T\b(?!:)", sig.split("->")[0].split("(", 1)[1])
     iparams = re.findall(r"\b(\w+)\s*:\s*Self::Item\b", sig.split("->")[0].split("(", 1)[1]) if plain else []
     two = bool(re.search(r"\bother\s*:", sig))
-    blk = C.P(C.tokenize(body_src)).block()
+    blk = rewrite_guard_let(C.P(C.tokenize(body_src)).block())
+    enum_params = re.findall(r"\b(\w+)\s*:\s*(" + "|".join(ENUMS) + r")\b", sig.split("->")[0])
     # `let mut x = None;` without annotation: typed by trying the two option types the subset has
     untyped = [st[1][1] for st in blk[1] if st[0] == "let" and st[1][0] == "pvar" and st[3] == ("path", "None")
                and not (len(st) > 4 and st[4])]
@@ -116,6 +137,7 @@ def translate(name, sig, body_src, siblings, plain=False):
         env = {p: "Nat" for p in params}
         env.update({p: "Elem" for p in eparams})
         env.update({p: "Rat" for p in iparams})
+        env.update({p: ("enum", ENUMS[t]) for p, t in enum_params})
         try:
             txt, ty = em.stmts(blk[1], blk[2], env, [], rt)
             break
@@ -129,7 +151,8 @@ def translate(name, sig, body_src, siblings, plain=False):
         raise C.Unsupported(f"result type {ty}, declared {rt}")
     L = [f"namespace {name}"]
     ps = ("".join(f" ({C.lname(p)} : Option Rat)" for p in eparams) + "".join(f" ({C.lname(p)} : Rat)" for p in iparams)
-          + "".join(f" ({C.lname(p)} : Nat)" for p in params))
+          + "".join(f" ({C.lname(p)} : Nat)" for p in params)
+          + "".join(f" ({C.lname(p)} : {ENUMS[t]})" for p, t in enum_params))
     ys = " (ys : List (Option Rat))" if two else ""
     where = "tea-agg/src/lib.rs" if name in EXT_FNS and not plain else "tea-core/src/agg.rs"
     L.append(f"/-- `{name}` of {where}, in source order -/")
